@@ -9,6 +9,7 @@ import (
 	"os"
 	"sync"
 	"sync/atomic"
+	"time"
 
 	"github.com/semafind/semadb/diskstore"
 )
@@ -17,10 +18,11 @@ var ErrInjected = errors.New("injected storage fault")
 
 // Plan says what happens to the next write transaction(s).
 type Plan struct {
-	FailAt     int64  // fail the k-th fallible operation (1-based); 0 = none
-	FailCommit bool   // the closure succeeds but the commit is refused
-	KillAt     int64  // os.Exit(3) at the k-th fallible operation
-	KillWhen   string // "pre" = after the closure, before commit; "post" = right after commit
+	FailAt      int64  // fail the k-th fallible operation (1-based); 0 = none
+	FailCommit  bool   // the closure succeeds but the commit is refused
+	PanicCommit bool   // the closure succeeds, then the goroutine that runs the transaction panics before the commit
+	KillAt      int64  // os.Exit(3) at the k-th fallible operation
+	KillWhen    string // "pre" = after the closure, before commit; "post" = right after commit
 }
 
 type Store struct {
@@ -39,6 +41,9 @@ type Store struct {
 	// OnReadOp: a storage read (Get / scan) inside a READ transaction is about to happen
 	// (only when set: read transactions then see wrapped buckets)
 	OnReadOp func()
+	// GetDelay: every Get inside a WRITE transaction takes this long (a slow disk: the workers of a write
+	// batch then really overlap in their read-throughs)
+	GetDelay time.Duration
 }
 
 func Wrap(inner diskstore.DiskStore) *Store { return &Store{Inner: inner} }
@@ -91,6 +96,10 @@ func (s *Store) Write(f func(diskstore.BucketManager) error) error {
 		if plan.FailCommit {
 			s.Injected.Store(true)
 			return ErrInjected
+		}
+		if plan.PanicCommit {
+			s.Injected.Store(true)
+			panic("injected panic inside the write transaction")
 		}
 		return nil
 	})
@@ -146,8 +155,13 @@ type bucket struct {
 	inner diskstore.Bucket
 }
 
-func (b *bucket) IsReadOnly() bool    { return b.inner.IsReadOnly() }
-func (b *bucket) Get(k []byte) []byte { return b.inner.Get(k) }
+func (b *bucket) IsReadOnly() bool { return b.inner.IsReadOnly() }
+func (b *bucket) Get(k []byte) []byte {
+	if d := b.s.GetDelay; d > 0 {
+		time.Sleep(d)
+	}
+	return b.inner.Get(k)
+}
 
 func (b *bucket) Put(k, v []byte) error {
 	if err := b.s.step(b.plan); err != nil {
